@@ -157,3 +157,13 @@ Example ex_ptr_walk :
   (do h <- h_run h_clear ex_llops; h_forward h 10) = Ok [(3, 1, 12); (4, 3, 13)] /\
   (do h <- h_run h_clear ex_llops; h_backward h 10) = Ok [(4, 3, 13); (3, 1, 12)].
 Proof. vm_compute. split; reflexivity. Qed.
+
+(* each primitive of the model (_insert / _remove / _remove_all), from a state whose cell map is in
+   step, is carried out correctly by the pointer code on any heap representing its cell list *)
+From Boltons Require Import Proofs.C01_PtrLink.
+Theorem C01_ptr_prims : forall s h, CmapOk s -> Rep h (ll s) ->
+  (forall k v, exists h', h_run h [LInsert (C01_Model.nxt s) k v] = Ok h' /\ Rep h' (ll (ll_insert s k v))) /\
+  (forall k s', ll_remove s k = Ok s' -> exists ops h', h_run h ops = Ok h' /\ Rep h' (ll s')) /\
+  (forall k s', ll_remove_all s k = Ok s' -> exists ops h', h_run h ops = Ok h' /\ Rep h' (ll s')).
+Proof. exact prims_on_heap. Qed.
+Print Assumptions C01_ptr_prims.
